@@ -20,11 +20,13 @@
      blocked_by th thu     thu owns what th waits for, on the same entry: th is about to call
                            read()/write() and thu has set WRITER_BIT (th_w: write lock held, or
                            write() waiting for the readers), or th has set WRITER_BIT and waits
-                           for the readers to drain and thu holds a read lock (th_r). *)
+                           for the readers to drain and thu holds a read lock (th_r)
+     moves fx sched s      number of entries of sched on which the scheduled thread really moved
+     work progs            12 * (number of calls) + 1 per thread (Proof/PageLocksTerm.v). *)
 From Coq Require Import ZArith List Bool Arith.
 From TV Require Import Lib.Interleave Model.PageLocks.
 From TV Require Import Proof.PageLocksBase Proof.PageLocksStep Proof.PageLocksShape Proof.PageLocksInv
-  Proof.PageLocks Proof.PageLocksRefute Proof.PageLocksLive Proof.PageLocksTable Corr.C36 Proof.PageLocksCorr.
+  Proof.PageLocks Proof.PageLocksRefute Proof.PageLocksLive Proof.PageLocksTable Corr.C36 Proof.PageLocksCorr Proof.PageLocksTerm.
 Import ListNotations.
 Open Scope Z_scope.
 
@@ -93,6 +95,14 @@ Check no_deadlock : forall fx progs sched,
   exists t, step fx t s <> None.
 Print Assumptions no_deadlock.
 
+(* ... and every step that is taken consumes work: no spinning, no livelock.  With no_deadlock:
+   scheduling threads that can move reaches "everybody finished" within work progs steps
+   ("every acquisition eventually succeeds"), as long as waiting threads hold no page guard *)
+Theorem bounded_work : forall fx progs sched, (moves fx sched (init progs) <= work progs)%nat.
+Proof. exact bounded_work_l. Qed.
+Check bounded_work : forall fx progs sched, (moves fx sched (init progs) <= work progs)%nat.
+Print Assumptions bounded_work.
+
 (* table intent locks: `exclusive` is never set, so the lock is granted in one step, always *)
 Theorem table_intent_granted : forall fx progs sched t th x tb r,
   let s := run (step fx) sched (init progs) in
@@ -123,11 +133,11 @@ Print Assumptions table_map_empty_when_done.
    counters observed after every step satisfy the oracle's exclusion clause *)
 Theorem agreeing_unflagged_case_exclusive : forall progs steps f,
   model_agrees (Case progs steps f) = true -> known_class (Case progs steps f) = 0 ->
-  forallb (fun st : stepobs => match st with (_, _, _, occ) => occ_ok occ end) steps = true.
+  forallb (fun st => occ_ok (so_occ st)) steps = true.
 Proof. exact agreeing_unflagged_case_exclusive_l. Qed.
 Check agreeing_unflagged_case_exclusive : forall progs steps f,
   model_agrees (Case progs steps f) = true -> known_class (Case progs steps f) = 0 ->
-  forallb (fun st : stepobs => match st with (_, _, _, occ) => occ_ok occ end) steps = true.
+  forallb (fun st => occ_ok (so_occ st)) steps = true.
 Print Assumptions agreeing_unflagged_case_exclusive.
 
 (* non-vacuity: a state with a writer and no stale cleanup is reachable; all_done is reachable *)
